@@ -53,8 +53,42 @@ theorem C04_http_segmentation (segs segs' : List Bytes) (h : segs.flatten = segs
     eventsOf httpSvc .open segs = eventsOf httpSvc .open segs' :=
   C04_any_two_segmentations httpSvc httpSvc_mono httpSvc_progress .open segs segs' h
 
+theorem oneSvc_mono (c : OneCfg) (s : HSSt) : Mono ((oneSvc c).next s) := by
+  cases s with
+  | «open» =>
+    apply bind_mono _ _ httpHead_mono
+    intro r
+    match r with
+    | some (m, t, 0) => exact pure_mono _
+    | some (m, t, n + 1) => exact pure_mono _
+    | none => exact pure_mono _
+  | body m t n => exact bind_mono _ _ (takeN_mono _) (fun _ => pure_mono _)
+  | closed => exact fail_mono
+
+theorem oneSvc_progress (c : OneCfg) (s : HSSt) : Progress ((oneSvc c).next s) := by
+  cases s with
+  | «open» =>
+    apply bind_progress _ _ httpHead_progress
+    intro r
+    match r with
+    | some (m, t, 0) => exact pure_nogrow _
+    | some (m, t, n + 1) => exact pure_nogrow _
+    | none => exact pure_nogrow _
+  | body m t n => exact bind_progress _ _ (takeN_progress _ (by omega)) (fun _ => pure_nogrow _)
+  | closed => exact fail_progress
+
+/-- elasticsearch, docker, eos, ethereum, cwmp (any configuration of the one-request machine): the reported request
+does not depend on how the client's stream is segmented. -/
+theorem C04_onerequest_segmentation (c : OneCfg) (segs segs' : List Bytes) (h : segs.flatten = segs'.flatten) :
+    eventsOf (oneSvc c) .open segs = eventsOf (oneSvc c) .open segs' :=
+  C04_any_two_segmentations (oneSvc c) (oneSvc_mono c) (oneSvc_progress c) .open segs segs' h
+
+/-- … and at most one request is reported per connection: after the first request the machine is closed. -/
+theorem C04_onerequest_closed (c : OneCfg) (b : Bytes) : (oneSvc c).next .closed b = none := rfl
+
 end HT.Relay
 
 /- OBLIGATIONS
 HT.Relay.C04_http_segmentation
+HT.Relay.C04_onerequest_segmentation
 -/
